@@ -21,6 +21,7 @@ type vmBox struct {
 	mkToJSON  otto.Value
 	define    otto.Value
 	constFn   otto.Value
+	takeLog   otto.Value
 	defGetter otto.Value
 	objectFn  otto.Value
 	fn        otto.Value
@@ -46,9 +47,18 @@ var envSrc = []string{
 	``,
 	`Object.defineProperty(Object.prototype,"a",{set:function(v){},configurable:true});Object.defineProperty(Object.prototype,"",{set:function(v){},configurable:true});`,
 	`Object.defineProperty(Object.prototype,"a",{value:7,writable:false,configurable:true});Object.defineProperty(Object.prototype,"",{value:7,writable:false,configurable:true});`,
+	// 3: a toJSON method on String.prototype, Number.prototype and Boolean.prototype
+	`var __log=[];(function(){function mk(t){return function(k){__log.push(t+":"+k);return "h"+t+":"+k}}` +
+		`String.prototype.toJSON=mk("S");Number.prototype.toJSON=mk("N");Boolean.prototype.toJSON=mk("B")})();`,
+	// 4: the same functions behind logging getters
+	`var __log=[];(function(){function mk(t){return function(k){__log.push(t+":"+k);return "h"+t+":"+k}}` +
+		`function g(p,t){var f=mk(t);Object.defineProperty(p,"toJSON",{get:function(){__log.push("g"+t);return f},configurable:true})}` +
+		`g(String.prototype,"S");g(Number.prototype,"N");g(Boolean.prototype,"B")})();`,
+	// 5: a toJSON method on Object.prototype
+	`var __log=[];Object.defineProperty(Object.prototype,"toJSON",{value:function(k){__log.push("O:"+k);return "hO:"+k},writable:true,configurable:true,enumerable:false});`,
 }
 
-var vmPools = [3]sync.Pool{{New: func() interface{} { return newBox(0) }}, {New: func() interface{} { return newBox(1) }}, {New: func() interface{} { return newBox(2) }}}
+var vmPools = [6]sync.Pool{{New: func() interface{} { return newBox(0) }}, {New: func() interface{} { return newBox(1) }}, {New: func() interface{} { return newBox(2) }}, {New: func() interface{} { return newBox(3) }}, {New: func() interface{} { return newBox(4) }}, {New: func() interface{} { return newBox(5) }}}
 
 func newBox(env int) *vmBox {
 	vm := otto.New()
@@ -76,6 +86,9 @@ func newBox(env int) *vmBox {
 	b.define = must(`(function(o,k,v){Object.defineProperty(o,k,{value:v,writable:true,enumerable:true,configurable:true})})`)
 	if envSrc[env] != "" {
 		must(envSrc[env])
+	}
+	if env >= 3 {
+		b.takeLog = must(`(function(){var l=__log.slice();__log.length=0;return l})`)
 	}
 	return b
 }
